@@ -300,3 +300,39 @@ Proof.
   unfold sm9_hash2_impl, sm9_hash2_spec. pose proof (ha_of_range 2%N (m ++ w)) as H.
   split; [apply from_hash_ok; exact H | apply from_hash_range; exact H].
 Qed.
+
+(* ------------------------------------------------------------------ sm9_z256_rand_range *)
+Lemma rand_range_loop_ok accept tries used draws r k :
+  rand_range_loop accept tries used draws = RR_ok r k ->
+  accept r = true /\ exists pre post, draws = map Some pre ++ Some r :: post /\ Forall (fun d => accept d = false) pre /\
+                                  k = (used + length pre + 1)%nat /\ (length pre < tries)%nat.
+Proof.
+  revert used draws. induction tries as [|t IH]; intros used draws H; cbn [rand_range_loop] in H; [discriminate |].
+  destruct draws as [|[d|] rest]; try discriminate.
+  destruct (accept d) eqn:E.
+  - injection H as <- <-. split; [exact E |]. exists [], rest. cbn. repeat split; auto; lia.
+  - apply IH in H. destruct H as (Ha & pre & post & -> & Hf & -> & Hl). split; [exact Ha |].
+    exists (d :: pre), post. cbn [map app length]. repeat split; auto; try lia.
+Qed.
+(* the value handed to the consumers (r of sign / KEM / exchange, the master keys) is the first draw in
+   [1, range-1]; every earlier draw was outside; in particular it is never 0 *)
+Lemma rand_range_spec range draws r k : (forall d, In (Some d) draws -> 0 <= d) ->
+  rand_range range draws = RR_ok r k ->
+  1 <= r <= range - 1 /\
+  exists pre post, draws = map Some pre ++ Some r :: post /\ k = (length pre + 1)%nat /\ (k <= 100)%nat /\
+                   Forall (fun d => d = 0 \/ range <= d) pre.
+Proof.
+  intros Hnn H. unfold rand_range in H. apply rand_range_loop_ok in H.
+  destruct H as (Ha & pre & post & E & Hf & Hk & Hl).
+  apply andb_true_iff in Ha. destruct Ha as [A1 A2]. apply negb_true_iff in A1, A2.
+  apply Z.leb_gt in A1. apply Z.eqb_neq in A2.
+  assert (0 <= r) by (apply Hnn; rewrite E; apply in_or_app; right; left; reflexivity).
+  split; [lia |]. exists pre, post. repeat split; auto; try lia.
+  apply Forall_forall. intros d Hd. pose proof (proj1 (Forall_forall _ _) Hf d Hd) as Hd'. cbv beta in Hd'.
+  apply andb_false_iff in Hd'. destruct Hd' as [Hd' | Hd']; apply negb_false_iff in Hd'.
+  - right. apply Z.leb_le. exact Hd'.
+  - left. apply Z.eqb_eq. exact Hd'.
+Qed.
+Example rand_range_old_zero_refuted :
+  rand_range_old Nord [Some 0; Some 5] = RR_ok 0 1 /\ rand_range Nord [Some 0; Some 5] = RR_ok 5 2.
+Proof. split; reflexivity. Qed.
